@@ -13,6 +13,7 @@ import (
 	"time"
 
 	v1 "k8s.io/api/core/v1"
+	k8sschedulingv1 "k8s.io/api/scheduling/v1"
 	"k8s.io/apimachinery/pkg/api/resource"
 	metav1 "k8s.io/apimachinery/pkg/apis/meta/v1"
 	"k8s.io/apimachinery/pkg/types"
@@ -153,6 +154,20 @@ type PGSpec struct {
 	ID, UID, Queue, Min int64
 	Conds               int64
 	Ann                 bool
+	Class               int64 // spec.priorityClassName: 0 = none, k = "pc<k>" (the class need not exist)
+}
+
+// PrioSpec is a version of a PriorityClass.
+type PrioSpec struct {
+	ID, Value int64
+	Global    bool
+}
+
+func PrioName(id int64) string { return fmt.Sprintf("pc%d", id) }
+
+func (p PrioSpec) Object(rv string) *k8sschedulingv1.PriorityClass {
+	return &k8sschedulingv1.PriorityClass{ObjectMeta: metav1.ObjectMeta{Name: PrioName(p.ID), ResourceVersion: rv},
+		Value: int32(p.Value), GlobalDefault: p.Global}
 }
 
 // NodeX is a delivered version of a Node: the resources of sched.NodeSpec plus
@@ -282,6 +297,7 @@ type Ctl struct {
 	pods      map[int64]*v1.Pod // informer store: last delivered version
 	pgs       map[int64]*schedulingv1beta1.PodGroup
 	queues    map[int64]*schedulingv1beta1.Queue
+	prios     map[int64]*k8sschedulingv1.PriorityClass
 	rv        int
 }
 
@@ -291,7 +307,8 @@ func New() *Ctl {
 		Binder:    &Binder{Fail: map[int64]bool{}},
 		Evictor:   &Evictor{Fail: map[int64]bool{}, Done: make(chan struct{}, 16)},
 		PreBinder: &PreBinder{Fail: map[int64]bool{}}, Status: &StatusUpdater{}, gone: map[int64]bool{},
-		pods: map[int64]*v1.Pod{}, pgs: map[int64]*schedulingv1beta1.PodGroup{}, queues: map[int64]*schedulingv1beta1.Queue{},
+		prios: map[int64]*k8sschedulingv1.PriorityClass{},
+		pods:  map[int64]*v1.Pod{}, pgs: map[int64]*schedulingv1beta1.PodGroup{}, queues: map[int64]*schedulingv1beta1.Queue{},
 	}
 	c.SC = cache.NewCustomMockSchedulerCache("volcano", c.Binder, c.Evictor, c.Status, nil, &record.FakeRecorder{})
 	c.SC.RegisterBinder("verif-prebinder", c.PreBinder)
@@ -367,6 +384,9 @@ func (c *Ctl) PGEvent(g PGSpec) {
 		Spec:   schedulingv1beta1.PodGroupSpec{MinMember: int32(g.Min), Queue: QueueName(g.Queue)},
 		Status: schedulingv1beta1.PodGroupStatus{Phase: schedulingv1beta1.PodGroupInqueue},
 	}
+	if g.Class != 0 {
+		pg.Spec.PriorityClassName = PrioName(g.Class)
+	}
 	if g.Ann {
 		pg.Annotations = map[string]string{"verif.io/note": "a", "volcano.sh/preemptable": "false"}
 	}
@@ -391,6 +411,25 @@ func (c *Ctl) PGDelete(id int64) {
 	}
 	c.SC.DeletePodGroupV1beta1(old)
 	delete(c.pgs, id)
+}
+
+// PrioEvent / PrioDelete: the PriorityClass informer's notifications
+func (c *Ctl) PrioEvent(p PrioSpec) {
+	obj := p.Object(c.nextRV())
+	if old, ok := c.prios[p.ID]; ok {
+		c.SC.UpdatePriorityClass(old, obj)
+	} else {
+		c.SC.AddPriorityClass(obj)
+	}
+	c.prios[p.ID] = obj
+}
+func (c *Ctl) PrioDelete(id int64) {
+	old, ok := c.prios[id]
+	if !ok {
+		return
+	}
+	c.SC.DeletePriorityClass(old)
+	delete(c.prios, id)
 }
 
 func (c *Ctl) QueueEvent(q int64) {
@@ -652,6 +691,12 @@ func (c *Ctl) Dump() []int64 {
 	for _, k := range dk { // "ns/j<N>/<pguid>"
 		i := strings.LastIndex(k, "/")
 		out = append(out, jobNum(api.JobID(k[:i])), pgUID(types.UID(k[i+1:])))
+	}
+	// the priority Snapshot() gives every job it contains (priorityClassName lookup, default fallback)
+	snap := sortedJobs(sc.Snapshot().Jobs)
+	out = append(out, -115, int64(len(snap)))
+	for _, j := range snap {
+		out = append(out, jobNum(j.UID), int64(j.Priority))
 	}
 	return out
 }
